@@ -87,6 +87,26 @@ CHECKS = {
         text="homogeneous_lde's result must equal, as a set with each element once, the set of minimal non-zero non-negative solutions found by an independent complete enumeration. Exhaustive on the small classes, exploration beyond.",
         note="The enumeration bound argument is written out in pbt/hilbert.py; systems on which the library needs longer than the driver timeout are skipped as slow.",
         variants=["main"]),
+    "C08": dict(
+        engine="hy", technique="property-based testing: one constructor call per case with argument generators built to reach the automatic rewrites (pi-multiples with shifts, radical pool for the inverse tables, exact numbers of every kind, doubles, infinities, nested inverse pairs, special-function lattices); value oracle = mpmath's function at the argument values, at generated complex / real points",
+        text="Each generated call f(args) of every constructor named in the statement is compared with mpmath's f at the argument values (principal branches, arguments on branch cuts excluded) at three generated points; zoo/nan results are accepted exactly where the reference has a pole. Exploration.",
+        note="Five recorded known findings (acot of negatives, the mis-scaled table constant C5, atan2 table quadrant, truncate of n+y, zeta with negative integer a) are excluded by narrow matchers; beta with a non-positive integer argument is not judged (pole ratio convention).",
+        variants=["main"]),
+    "C12": dict(
+        engine="hy", technique="property-based testing: symbol-free trees over every node type eval_double accepts (arguments repaired into each function's domain) plus a function x argument-shape table; 70-digit mpmath reference with a per-rounding-point forward error bound; agreement of the three real evaluators",
+        text="eval_double, its single-dispatch and visitor variants, eval_complex_double and evalf at <= 53 bits (real/complex/symbolic) are compared with a 70-digit reference within 64*2^-53 times a first-order error amplification estimated per rounding point; the real evaluators must agree within 4 ulp; every supported node type must be hit or the run fails. Exploration.",
+        note="Ill-conditioned trees (amplification > 1e4), branch cuts and kinks are skipped and counted.",
+        variants=["main"]),
+    "C13": dict(
+        engine="hy", technique="property-based testing (stateful): histories of init(cse?)/call on one lambda visitor incl. throwing inits, compared after every step with fresh visitors (same init; opposite CSE flag) and with the mpmath value of every output",
+        text="After every step of a generated history the reused visitor must behave exactly like a fresh one given the same init (throws iff fresh throws, bit-equal outputs), CSE on/off must agree, and every output must equal the mpmath value within the C12 tolerance; real and complex visitors. Exploration.",
+        note="Outputs share generated sub-expressions so CSE is exercised; input names x0, x1 collide with CSE temporaries on purpose.",
+        variants=["main"]),
+    "C42": dict(
+        engine="hy", technique="property-based testing (model-based programs): generated programs of C API calls on genuine C handles (arguments deliberately include values that make the C++ side throw), each call compared with its C++ counterpart computed in the same driver step; containers against Python list/set/dict models; Expression operators against the core functions",
+        text="247 bindings covering 269 cwrapper.h functions: every step must either return SYMENGINE_NO_EXCEPTION with a result whose dump equals the C++ API result, or a non-zero code with all output handles still valid; an exception escaping an extern C function is caught by the binding and reported; vec/set/map containers are model-checked after every mutation; 11 Expression operator bindings agree with the core. Exploration.",
+        note="Preconditions guarded only by SYMENGINE_ASSERT (index ranges, handle sorts) are respected by construction. Known findings KF-C42-04 (lambda visitor init has no error channel) and KF-C42-07 (parser boolean downcast) are excluded while listed.",
+        variants=["main"]),
 }
 
 NOT_APPLICABLE = {}
